@@ -2,7 +2,7 @@
    read / read_first_n / read_resampling) and src/series/data.rs (Data). *)
 From Coq Require Import List NArith Bool Arith.
 From Coq Require Import Strings.Byte.
-Require Import BS.Bytes BS.Common BS.FS BS.Meta BS.Header BS.Reader BS.Index.
+Require Import BS.Bytes BS.Common BS.Api BS.FS BS.Meta BS.Header BS.Reader BS.Index.
 Require BSgen.Consts.
 Import ListNotations.
 Close Scope N_scope. Open Scope nat_scope.
